@@ -7,7 +7,7 @@ ID = "C04"
 LEAN_MODULES = ["KaVerif.Props.C04", "KaVerif.Props.C04Table"]
 GEN = ["Units"]
 THEOREMS = ["KaVerif.C04_make", "KaVerif.C04_to", "KaVerif.C04_to_self", "KaVerif.C04_roundtrip", "KaVerif.C04_operand_order",
-            "KaVerif.C04_halves", "KaVerif.C04_linear", "KaVerif.C04_table_canonical"]
+            "KaVerif.C04_halves", "KaVerif.C04_linear", "KaVerif.C04_distributes", "KaVerif.C04_table_canonical"]
 RULE = ("the C03 tree generator (all units, spellings, prefixes, compound signatures, all operators and `to`) with the magnitude "
         "oracle: exact Fraction arithmetic over the registered factors/offsets in written operand order; exact comparison (value and "
         "kind) when every unit is rational with positive exponent and no float literal occurs, 1e-9 relative otherwise; plus the "
